@@ -211,3 +211,73 @@ package gorm
 //@   ensures error-recorded: drvRollbacks == old(drvRollbacks) + 1 && drvRollbackErr != 0 ==> db.Error != nil
 //@   ensures error-kept: old(db.Error) != nil ==> db.Error != nil
 //@   ensures same-handle: result == db
+
+//@ # ---------- C14: lock discipline of the prepared-statement cache (premises of the monitor argument) ----------
+//@ ghost held inserted closes prepares spawned prepErr evicted
+//@ event call (*RWMutex).RLock
+//@   requires lock-taken-while-free: held == 0 [C14]
+//@   do held = 1
+//@   interference
+//@ event call (*RWMutex).RUnlock
+//@   requires runlock-while-read-held: held == 1 [C14]
+//@   do held = 0
+//@ event call (*RWMutex).Lock
+//@   requires lock-taken-while-free: held == 0 [C14]
+//@   do held = 2
+//@   interference
+//@ event call (*RWMutex).Unlock
+//@   requires unlock-while-write-held: held == 2 [C14]
+//@   do held = 0
+//@ event mapread PreparedStmtDB.Stmts
+//@   requires cache-read-under-lock: held >= 1 [C14]
+//@ event mapwrite PreparedStmtDB.Stmts
+//@   requires cache-write-under-write-lock: held == 2 [C14]
+//@   do inserted = inserted + 1
+//@ event mapdelete PreparedStmtDB.Stmts
+//@   requires cache-delete-under-write-lock: held == 2 [C14]
+//@   do evicted = evicted + 1
+//@ event recv
+//@   requires no-wait-while-locked: held == 0 [C14]
+//@   interference
+//@ event invoke ConnPool.PrepareContext
+//@   requires no-prepare-while-locked: held == 0 [C14]
+//@   do prepares = prepares + 1
+//@   do prepErr = tagof(result1)
+//@ event call database/sql.(*Stmt).ExecContext
+//@   requires no-exec-while-locked: held == 0 [C14]
+//@ event call database/sql.(*Stmt).QueryContext
+//@   requires no-query-while-locked: held == 0 [C14]
+//@ event call database/sql.(*Stmt).Close
+//@   requires no-close-while-locked: held == 0 [C14]
+//@ event close
+//@   do closes = closes + 1
+//@ event go
+//@   do spawned = spawned + 1
+
+//@ func (*PreparedStmtDB).prepare
+//@   tags C14
+//@   requires held == 0
+//@   ensures mutex-free-on-return: held == 0
+//@   ensures no-insert-no-close: inserted == old(inserted) ==> closes == old(closes)
+//@   ensures inserter-closes-once: inserted == old(inserted) + 1 ==> closes == old(closes) + 1
+//@   ensures at-most-one-insert: inserted <= old(inserted) + 1
+//@   ensures at-most-one-prepare: prepares <= old(prepares) + 1
+//@   ensures hit-paths-do-not-prepare: inserted == old(inserted) ==> prepares == old(prepares)
+//@   ensures failed-preparation-reported-and-evicted: prepares == old(prepares) + 1 && prepErr != 0 ==> result1 != nil && evicted == old(evicted) + 1
+//@   ensures successful-preparation-stays-cached: prepares == old(prepares) + 1 && prepErr == 0 ==> result1 == nil && evicted == old(evicted)
+//@   ensures hit-paths-do-not-evict: prepares == old(prepares) ==> evicted == old(evicted)
+
+//@ func (*PreparedStmtDB).ExecContext (*PreparedStmtDB).QueryContext (*PreparedStmtTX).ExecContext (*PreparedStmtTX).QueryContext
+//@   tags C14
+//@   requires held == 0
+//@   ensures mutex-free-on-return: held == 0
+
+//@ func (*PreparedStmtDB).Reset (*PreparedStmtDB).Close
+//@   tags C14
+//@   requires held == 0
+//@   ensures mutex-free-on-return: held == 0
+
+//@ func (*PreparedStmtDB).Reset$1 (*PreparedStmtDB).Close$1
+//@   tags C14
+//@   requires held == 0
+//@   ensures mutex-free-on-return: held == 0
